@@ -543,13 +543,16 @@ class MP4Tags(DictProxy, Tags):
         # the payload starts after an 8 or (64 bit size) 16 byte header
         fileobj.seek(atom._dataoffset + 1)
         data = fileobj.read(atom.datalength - 1)
-        flags = cdata.uint_be(b"\x00" + data[:3])
-        if flags & 1:
-            o = cdata.ulonglong_be(data[7:15])
-            if o > offset:
-                o += delta
-            fileobj.seek(atom._dataoffset + 8)
-            fileobj.write(cdata.to_ulonglong_be(o))
+        try:
+            flags = cdata.uint_be(b"\x00" + data[:3])
+            if flags & 1:
+                o = cdata.ulonglong_be(data[7:15])
+                if o > offset:
+                    o += delta
+                fileobj.seek(atom._dataoffset + 8)
+                fileobj.write(cdata.to_ulonglong_be(o))
+        except cdata.error:
+            raise MP4MetadataError("wrong offset inside %r" % atom.name)
 
     def __update_offsets(self, fileobj, atoms, delta, offset):
         """Update offset tables in all 'stco' and 'co64' atoms."""
